@@ -7,7 +7,7 @@ import subprocess
 import sys
 import time
 
-VERIF = "/verif"
+VERIF = os.path.dirname(os.path.dirname(os.path.abspath(__file__)))  # /verif, or a snapshot of it (vp run)
 REPO = "/repo"
 SPEC = os.path.join(VERIF, "spec")
 HARNESS = os.path.join(VERIF, "harness")
